@@ -291,9 +291,13 @@ class Point(object):
                 raise ValueError("The PEP must be solved to evaluate Points!")
             # If linear combination, combine the values of the leaf, and store the result before returning it.
             else:
-                value = np.zeros(Point.counter)
+                # Accumulate from the values of the leaf points (they all share the dimension found at solve time,
+                # which may be smaller than Point.counter if new points were created since then).
+                value = 0
                 for point, weight in self.decomposition_dict.items():
-                    value += weight * point.eval()
+                    value = value + weight * point.eval()
+                if len(self.decomposition_dict) == 0:
+                    value = np.zeros(Point.counter)
                 self._value = value
 
         return self._value
